@@ -256,6 +256,8 @@ class Executor:
         self.depth = 0
         self.trace_calls = False
         self.env = {}            # harness-owned per-path state
+        self._isig = None
+        self._isig_n = 0
 
     # ------------------------------------------------------------------ symbols and branching
     def fresh_int(self, label, lo=None, hi=None):
@@ -714,6 +716,14 @@ class Executor:
         _, path, ops, names = rv
         vals = [self.operand(fr, o) for o in ops]
         dty = self.place_ty(fr, dest) if dest is not None else None
+        key = (path, dty)
+        ent = _AGGCACHE.get(key)
+        if ent is None:
+            ent = _AGGCACHE[key] = self._aggregate_kind(path, dty)
+        ty, idx, vname = ent
+        return Agg(ty, idx, vals, vname)
+
+    def _aggregate_kind(self, path, dty):
         base = P.strip_generics(path)
         segs = base.split('::')
         # enum variant?
@@ -727,9 +737,9 @@ class Executor:
                     continue
                 idx = self.prog.src.variant_index(cand, vname)
                 if idx is not None:
-                    return Agg(P.strip_generics(cand) if cand else enum_path, idx, vals, vname)
+                    return (P.strip_generics(cand) if cand else enum_path, idx, vname)
         ty = P.strip_generics(dty) if dty and last_seg(dty) == segs[-1] else base
-        return Agg(ty, None, vals)
+        return (ty, None, None)
 
     # ------------------------------------------------------------------ types of operands
     def place_ty(self, fr, place):
@@ -905,17 +915,39 @@ class Executor:
 
     # ------------------------------------------------------------------ call dispatch
     def do_call(self, fr, callee, args, dest):
-        c = clean_callee(callee)
+        E = self.E
+        c = _CLEAN.get(callee)
+        if c is None:
+            c = _CLEAN[callee] = clean_callee(callee)
         if self.trace_calls:
             print('  ' * self.depth + '. ' + c, file=sys.stderr)
-        for rx, fn in self.intercepts:
-            if rx.match(c):
+        if self.intercepts:
+            sig = self._isig
+            if sig is None or self._isig_n != len(self.intercepts):
+                sig = self._isig = hash(tuple(rx.pattern for rx, _ in self.intercepts))
+                self._isig_n = len(self.intercepts)
+            key = (sig, c)
+            idxs = _ICACHE.get(key)
+            if idxs is None:
+                idxs = _ICACHE[key] = [i for i, (rx, _) in enumerate(self.intercepts) if rx.match(c)]
+            for i in idxs:
+                rx, fn = self.intercepts[i]
                 r = fn(self, c, args)
                 if r is not NotImplemented:
-                    self.E.stats.models_used.add('intercept:' + rx.pattern)
+                    E.stats.models_used.add('intercept:' + rx.pattern)
                     return r
-        key = (c, type_tag(args[0]) if args else None)
-        target = self.resolve_callee(c, args, fr)
+        tag = type_tag(args[0]) if args else None
+        rkey = (c, tag, fr.name if fr is not None and '::' not in c and not c.startswith('<') else None)
+        ent = _RCACHE.get(rkey)
+        if ent is None:
+            try:
+                ent = ('fn', self.resolve_callee(c, args, fr))
+            except Unsupported as u:
+                ent = ('unsupported', str(u))
+            _RCACHE[rkey] = ent
+        if ent[0] == 'unsupported':
+            raise Unsupported(ent[1])
+        target = ent[1]
         if target is not None:
             return self.call_fn(target, args)
         from . import models
@@ -1084,6 +1116,12 @@ class Executor:
             raise Unsupported('coroutine body not found for %s / %s' % (co.ty, key))
         pin = Agg('Pin', None, [Ref([co], 0, True)])
         return self.call_fn(name, [pin, cx if cx is not None else Opaque('Context')])
+
+
+_CLEAN = {}
+_ICACHE = {}
+_RCACHE = {}
+_AGGCACHE = {}
 
 
 class BytesLit:
